@@ -89,9 +89,10 @@ def _parseNormalHeader(fn: str) -> Tuple[str, str, float, float]:
     objectType = chunkedData[1].split("=")[-1]
     objectType = objectType.replace('"', "").strip()
 
-    data = chunkedData[-1]
-    maxT = float(chunkedData[-4].split("=")[-1].strip())
-    minT = float(chunkedData[-5].split("=")[-1].strip())
+    # The header is 7 lines long; a file without any points ends there
+    data = chunkedData[7] if len(chunkedData) > 7 else ""
+    maxT = float(chunkedData[4].split("=")[-1].strip())
+    minT = float(chunkedData[3].split("=")[-1].strip())
 
     return data, objectType, minT, maxT
 
